@@ -797,7 +797,8 @@ class EventSource(object):
             elif field == u'retry':  #
                 try:
                     value = int(value)
-                except ValueError as ex:
+                    float(value)  # used as a duration: OverflowError when it is too big for that
+                except (ValueError, OverflowError) as ex:
                     pass  # ignore
                 else:
                     self.retry = value
